@@ -62,7 +62,10 @@ def extra(ex, ck, worst):
                         k = (strategy, n)
                         worst[k] = max(worst.get(k, 0), run1.tests)
     # minimize-collapse-brace: concrete model (re-split through the modelled splitters)
-    for data in (b"{\n\n}\n", b"a\n{\n \n}\nb\n", b"x{\n}y\n{\n}\n", b"{\n{\n}\n}\n", b"{ \n\t\n}\n" * 3):
+    for data in (b"{\n\n}\n", b"a\n{\n \n}\nb\n", b"x{\n}y\n{\n}\n", b"{\n{\n}\n}\n", b"{ \n\t\n}\n" * 3,
+                 # bytes that are not UTF-8, and non-ASCII white space between braces (the collapse is on BYTES)
+                 b"a\xff\n{\n}\nb\n", b"caf\xe9 {\n\n}\n\xc2\x85x\n", b"{\xc2\x85}\n{\xc2\xa0}\n{\n}\n",
+                 b"{\xe2\x80\xa8}\n\xfe{\x0b\x0c}\n"):
         for atom in ("line", "char", "symbol"):
             for cfg in cfgs[:3]:
                 runs = ex.dfs("minimize-collapse-brace", cfg, None, file0=data, atom=atom, load=True,
@@ -100,5 +103,45 @@ def extra(ex, ck, worst):
                                      f"{len(run1.seen[-1][1])} bytes vs original {B}",
                                      {"strategy": strategy, "data": data.hex(), "cfg": cfg, "verdicts": v[:10],
                                       "tests": run1.tests, "exc": run1.exc}, key=key)
+    # replace-properties-by-globals against its CONCRETE model (Model/ReplaceProps.v): complete traces, DFS over
+    # verdict sequences, every option that reaches the strategy, all splitters (non-reducible parts), stale work
+    # items (a word that an earlier accepted substitution removed), repeated words in one line
+    quick = ck.tier == "quick"
+    pcorpus = [b"x.y.z = 1;\nq.y.z = 2;\nx.y.w();\n", b"q.c\na.b.c\n", b"a.b.b\nz\na.b a.b\n", b"a..b\n.c\nd.\n1.5e.f\n",
+               b"this.list = [];\nFoo.prototype.push = function(a) {\nthis.list.push(a);\n}\n", b"a.b\n" * 5,
+               b"caf\xc3\xa9.x.y\n\xff.z\nw_1.k_2.k_2\n", b"a.wordy a.word\nb.word.word.x\n"]
+    for data in pcorpus:
+        parts = data.splitlines(keepends=True)
+        tc = (b"", parts, [True] * len(parts), b"")
+        for cfg in ({}, {"repeat": "always"}, {"repeat": "never"}, {"max": 1}, {"min": 2}, {"min": 2, "max": 2, "repeat": "never"}):
+            runs = ex.dfs("replace-properties-by-globals", cfg, tc, stream="replace-properties-concrete",
+                          max_runs=60 if quick else 600, cap=(len(data) + 2) ** 2 + 1)
+            for x in runs:
+                if x.tests > (len(data) + 2) ** 2 or x.exc not in (None,):
+                    ck.violation(f"replace-properties-by-globals on {data!r}: {x.tests} tests (bound {(len(data) + 2) ** 2}), "
+                                 f"exc={x.exc}", {"strategy": "replace-properties-by-globals", "data": data.hex(), "cfg": cfg})
+    for atom, data in (("jsstr", b"x = 'a.b' + \"c.d.e\";\n"), ("attrs", b'<a href="x.y.z" id=p.q>\n<b c=d.e>'),
+                       ("symbol", b"a.b;c.d{e.f}\n"), ("line", b"h.h\nDDBEGIN\na.b.c\nd.b\nDDEND\nt.t\n"), ("char", b"a.b")):
+        ex.dfs("replace-properties-by-globals", {}, None, file0=data, atom=atom, load=True, stream="replace-properties-concrete",
+               max_runs=60 if quick else 600, cap=400)
+    # the two regular expressions of the pass as byte scanners (props_of, sub_word) against CPython's re
+    import re as _re
+    from common import hx, run_model
+    rr = rng("c09-regex")
+    alpha = b"ab._ ;(.a.b9_\xff\xc3\xa9-\n"
+    rcases, rwant = [], []
+    for i in range(4000 if quick else 60000):
+        sline = bytes(rr.choice(alpha) for _ in range(rr.randint(0, 14)))
+        if i % 2 == 0:
+            rcases.append("propsof " + hx(sline))
+            rwant.append("ok " + ",".join(hx(mm.group(1)) for mm in _re.finditer(rb"(?<=[\w\d_])\.(\w+)", sline)))
+        else:
+            w = bytes(rr.choice(b"ab_9") for _ in range(rr.randint(1, 3)))
+            rcases.append("subword " + hx(w) + " " + hx(sline))
+            rwant.append("ok " + hx(_re.sub(rb"[\w_.]+\." + w, w, sline)))
+        ck.count("regex-scanner")
+    for c, m, w in zip(rcases, run_model(rcases), rwant):
+        if m.strip() != w.strip():
+            ck.mismatch("regex-scanner", c, m, w)
     ck.cov["worst_case_tests"] = {f"{k[0]}/n={k[1]}": {"tests": v, "bound": c09_bound(k[1])}
                                   for k, v in worst.items()}
